@@ -60,11 +60,4 @@ def shardedResult (P : Pipeline X S Rv) (parts : List (List Batch)) (strict : Na
       | .error e => .error e
       | .ok st => getResult P st
 
-/-- `SequenceDataSource(batches).shard(i, k)` for `i = 0..k-1` (io.py:61-78): consecutive ranges, the
-first `len % k` one element longer -/
-def contiguousParts {α : Type} (k : Nat) (xs : List α) : List (List α) :=
-  let q := xs.length / k
-  let r := xs.length % k
-  (List.range k).map fun i => (xs.drop (i * q + min i r)).take (q + if i < r then 1 else 0)
-
 end MlModel.PipeAgg
